@@ -9,7 +9,7 @@
 From Coq Require Import List ZArith Bool Arith Lia.
 Import ListNotations.
 Require Import C20.Model C20.ProofsBase C20.ProofsToeplitz C20.ProofsPerm C20.ProofsShape C20.ProofsInterp
-  C20.ProofsSparse C20.ProofsRepeat C20.ProofsToSparse.
+  C20.ProofsSparse C20.ProofsRepeat C20.ProofsToSparse C20.ProofsGetitem C20.ProofsBdsmm C20.ProofsInterpT C20.ProofsMakeSparse.
 
 (* ------------------------------------------------------------------------------------------------------------ *)
 (* linear_operator/utils/toeplitz.py *)
@@ -159,6 +159,19 @@ Theorem C20_apply_permutation : forall M left right ncols nrows rbatch kl pbl kr
            idx_at (perm_or_arange left nrows) (i :: bcast_ix pbl b) :: bcast_ix rbatch b).
 Proof. exact apply_permutation_value. Qed.
 
+(* ... and it does return on in-range (partial) permutations whose batch shapes broadcast, with the result shape
+   (broadcast batch..., kl, kr) *)
+Theorem C20_apply_permutation_total : forall M left right ncols nrows rbatch kl pbl kr pbr ob1 ob,
+  tshape M = ncols :: nrows :: rbatch ->
+  (left <> None \/ right <> None) ->
+  let L := perm_or_arange left nrows in let R := perm_or_arange right ncols in
+  tshape L = kl :: pbl -> tshape R = kr :: pbr ->
+  (forall ix, valid ix (kl :: pbl) -> (0 <= tat L ix < Z.of_nat nrows)%Z) ->
+  (forall ix, valid ix (kr :: pbr) -> (0 <= tat R ix < Z.of_nat ncols)%Z) ->
+  broadcast_shapes pbl rbatch = Some ob1 -> broadcast_shapes pbr ob1 = Some ob ->
+  exists out, apply_permutation M left right = Ok out /\ tshape out = kr :: kl :: ob.
+Proof. exact apply_permutation_total. Qed.
+
 Theorem C20_apply_permutation_none : forall M, apply_permutation M None None = Ok M.
 Proof. exact apply_permutation_none. Qed.
 
@@ -307,6 +320,136 @@ Theorem C20_to_sparse : forall d,
   exists s, to_sparse d = Ok s /\ sshape s = tshape d /\ swf s = true /\
     forall ix, valid ix (tshape d) -> tat (sdense s) ix = tat d ix.
 Proof. exact to_sparse_correct. Qed.
+
+(* bdsmm, plain branch (both operands 2-D) and dense-batched branch (sparse 2-D, dense of any rank > 2: the batch is
+   folded into the columns by view / transpose / reshape, one dsmm, and unfolded again): S @ D_b for every batch
+   member b, all sizes, all batch shapes *)
+Theorem C20_bdsmm_plain : forall stride s d n m p,
+  sshape s = [n; m] -> tshape d = [p; n] -> swf s = true ->
+  exists out, bdsmm stride s d = Ok out /\ tshape out = [p; m] /\
+    forall j i, tat out [j; i] = zsum n (fun c => (tat (sdense s) [c; i] * tat d [j; c])%Z).
+Proof. exact bdsmm_plain_correct. Qed.
+
+Theorem C20_bdsmm_dense_batched : forall stride s d n m p b0 rb,
+  sshape s = [n; m] -> tshape d = p :: n :: b0 :: rb -> swf s = true ->
+  exists out, bdsmm stride s d = Ok out /\ tshape out = p :: m :: b0 :: rb /\
+    forall j i b, j < p -> i < m -> valid b (b0 :: rb) ->
+      tat out (j :: i :: b) = zsum n (fun c => (tat (sdense s) [c; i] * tat d (j :: c :: b))%Z).
+Proof. exact bdsmm_dense_batched_correct. Qed.
+
+(* sparse-batched branch (sparse of rank > 2): every batch member is placed on the diagonal of ONE 2-D sparse matrix
+   (entry (b, r, c) -> (r + beta*num_rows, c + beta*num_cols), beta = `indices[:-2].t() @ batch_multiplication_factor`
+   = row-major rank of b), the dense operand is reshaped to (batch*num_cols, -1), one dsmm, reshaped back.
+   Proved for every sparse batch shape ob of any rank and a dense batch that broadcasts INTO it (so that
+   sparse_repeat is the identity, for either stride).  PARTIAL: a sparse batch that itself has to be broadcast
+   (size-1 batch dimensions repeated by sparse_repeat before flattening) is covered by C20_sparse_repeat and the
+   correspondence grid only. *)
+Theorem C20_bdsmm_sparse_batched_partial : forall stride s d nc nr o0 orest p db,
+  let ob := o0 :: orest in
+  sshape s = nc :: nr :: ob -> swf s = true -> Forall (fun x => 1 <= x) (nc :: nr :: ob) ->
+  tshape d = p :: nc :: db -> broadcast_shapes ob db = Some ob ->
+  exists out, bdsmm stride s d = Ok out /\ tshape out = p :: nr :: ob /\
+    forall j i b, j < p -> i < nr -> valid b ob ->
+      tat out (j :: i :: b) = zsum nc (fun c => (tat (sdense s) (c :: i :: b) * tat d (j :: c :: bcast_ix db b))%Z).
+Proof. exact bdsmm_sparse_batched_correct. Qed.
+
+(* the batch assignment dot product is the row-major rank of the (torch-order) batch index *)
+Theorem C20_batch_assignment : forall rbatch bix, length bix = length rbatch ->
+  fold_right Nat.add 0 (map (fun i => nth i (rev bix) 0 * numel (skipn (S i) (rev rbatch))) (seq 0 (length (rev rbatch))))
+  = ravel rbatch bix.
+Proof. exact batch_assign_ravel. Qed.
+
+(* DSMM.backward = bdsmm(sparse.mT, grad_output): with C20_sparse_mT this is S^T @ G (2-D sparse) *)
+Theorem C20_dsmm_backward_plain : forall stride s g n m p,
+  sshape s = [n; m] -> tshape g = [p; m] -> swf s = true ->
+  exists out, dsmm_backward stride s g = Ok out /\ tshape out = [p; n] /\
+    forall j c, tat out [j; c] = zsum m (fun i => (tat (sdense s) [c; i] * tat g [j; i])%Z).
+Proof. exact dsmm_backward_plain_correct. Qed.
+
+(* sparse_getitem (repaired code, proposed_fixes/C20-sparse-getitem-*.diff) = dense basic indexing: every well-formed
+   sparse tensor of rank <= 2 (any sizes, duplicate / unordered entries), index tuples of ints in range (negative = from
+   the end) and unit-step slices with arbitrary bounds (negative, omitted, over-long, empty, reversed).
+   Index tuples are in torch order here; `spec_ix idxs size jx` is the input position that dense indexing reads for the
+   output position jx, `spec_size` the result size.  (The loop lemma ProofsGetitem.loop_correct holds for any rank.) *)
+Theorem C20_sparse_getitem : forall s idxs,
+  swf s = true -> length (sshape s) <= 2 -> length idxs <= length (sshape s) ->
+  let size0 := map Z.of_nat (rev (sshape s)) in
+  idxs_ok idxs size0 ->
+  exists s', sparse_getitem true s idxs = Ok s' /\
+    sshape s' = rev (map Z.to_nat (spec_size idxs size0)) /\ swf s' = true /\
+    forall jx, valid jx (map Z.to_nat (spec_size idxs size0)) ->
+      tat (sdense s') (rev jx) = tat (sdense s) (rev (spec_ix idxs size0 jx)).
+Proof. exact sparse_getitem_correct. Qed.
+
+Example C20_sparse_getitem_nonvacuous :
+  let s := mkS [3; 2] [([0; 0], 1%Z); ([2; 0], 2%Z); ([1; 1], 3%Z); ([1; 1], 4%Z)] in
+  let idxs := [IInt (-1); ISlice (Some (-2)%Z) None None] in
+  swf s = true /\ idxs_ok idxs (map Z.of_nat (rev (sshape s))) /\
+  spec_size idxs [2; 3]%Z = [2%Z] /\ spec_ix idxs [2; 3]%Z [0] = [1; 1] /\
+  match sparse_getitem true s idxs with Ok s' => to_flat (sdense s') = [7; 0]%Z | Err => False end.
+Proof.
+  cbv zeta. split; [reflexivity|]. split; [simpl; repeat split; try lia; left; reflexivity|].
+  split; [reflexivity|]. split; [reflexivity|]. vm_compute. reflexivity.
+Qed.
+
+(* KNOWN FINDINGS C20-sparse-getitem-negative-int / -empty-slice: the pinned code returns zeros for S[-1] and fails on
+   an empty slice, where dense indexing gives the last row / an empty tensor *)
+Theorem C20_sparse_getitem_pinned_refuted :
+  let s := mkS [3; 2] [([0; 0], 1%Z); ([2; 0], 2%Z); ([1; 1], 3%Z)] in
+  (exists s', sparse_getitem false s [IInt (-1)] = Ok s' /\ to_flat (sdense s') = [0; 0; 0]%Z) /\
+  (exists s', sparse_getitem true s [IInt (-1)] = Ok s' /\ to_flat (sdense s') = [0; 3; 0]%Z) /\
+  sparse_getitem false s [ISlice (Some 1%Z) (Some 1%Z) None] = Err /\
+  sparse_getitem false s [ISlice (Some 2%Z) (Some 1%Z) None] = Err /\
+  (exists s', sparse_getitem true s [ISlice (Some 2%Z) (Some 1%Z) None] = Ok s' /\ sshape s' = [3; 0]).
+Proof.
+  cbv zeta. split; [eexists; split; vm_compute; reflexivity|]. split; [eexists; split; vm_compute; reflexivity|].
+  split; [vm_compute; reflexivity|]. split; [vm_compute; reflexivity|]. eexists; split; vm_compute; reflexivity.
+Qed.
+
+(* ------------------------------------------------------------------------------------------------------------ *)
+(* left_t_interp = W^T x (placed here because it goes through the summing-matrix sparse product bdsmm): entry
+   (b, k, j) of the result is  sum_r sum_a [idx_b[r, a] = k] * vals_b[r, a] * rhs_b[r, j]  — duplicate indices sum —
+   for all sizes, any number of interpolation coefficients, any batch shapes ib of (idx, vals) and rb of rhs that
+   broadcast to bc (all sizes >= 1: the library builds an (empty) sparse tensor otherwise) *)
+Theorem C20_left_t_interp_matrix : forall stride idx vals rhs q n ib c rb bc m,
+  tshape idx = q :: n :: ib -> tshape vals = q :: n :: ib -> tshape rhs = c :: n :: rb ->
+  1 <= q -> 1 <= n -> 1 <= c -> 1 <= m -> 1 <= numel bc ->
+  broadcast_shapes ib rb = Some bc ->
+  (forall ix, valid ix (q :: n :: ib) -> (0 <= tat idx ix < Z.of_nat m)%Z) ->
+  exists out, left_t_interp stride idx vals rhs m = Ok out /\ tshape out = c :: m :: bc /\
+    forall j k b, j < c -> k < m -> valid b bc ->
+      tat out (j :: k :: b) =
+      zsum n (fun r => zsum q (fun a =>
+        ((if (idx_at idx (a :: r :: bcast_ix ib b) =? k)%nat then 1 else 0)
+         * (tat rhs (j :: r :: bcast_ix rb b) * tat vals (a :: r :: bcast_ix ib b)))%Z)).
+Proof. exact left_t_interp_matrix_correct. Qed.
+
+Theorem C20_left_t_interp_vector : forall stride idx vals rhs q n ib m,
+  tshape idx = q :: n :: ib -> tshape vals = q :: n :: ib -> tshape rhs = [n] ->
+  1 <= q -> 1 <= n -> 1 <= m -> 1 <= numel ib ->
+  (forall ix, valid ix (q :: n :: ib) -> (0 <= tat idx ix < Z.of_nat m)%Z) ->
+  exists out, left_t_interp stride idx vals rhs m = Ok out /\ tshape out = m :: ib /\
+    forall k b, k < m -> valid b ib ->
+      tat out (k :: b) =
+      zsum n (fun r => zsum q (fun a =>
+        ((if (idx_at idx (a :: r :: b) =? k)%nat then 1 else 0) * (tat rhs [r] * tat vals (a :: r :: b)))%Z)).
+Proof. exact left_t_interp_vector_correct. Qed.
+
+(* make_sparse_from_indices_and_values denotes the TRANSPOSED interpolation matrix W^T (shape batch x num_rows x
+   n_target_points): entry (b, k, t) = sum_a [idx_b[t, a] = k] vals_b[t, a]; zero values are dropped, the all-zero
+   special case yields one explicit zero; any batch rank (the per-dimension batch index tensors built by
+   arange/repeat/view are the digits of the row-major position) *)
+Theorem C20_make_sparse_from_indices_and_values : forall idx vals m nc nt rb,
+  tshape idx = nc :: nt :: rb -> tshape vals = nc :: nt :: rb ->
+  Forall (fun d => 1 <= d) (nc :: nt :: rb) -> 1 <= m ->
+  (forall ix, valid ix (nc :: nt :: rb) -> (0 <= tat idx ix < Z.of_nat m)%Z) ->
+  exists s, make_sparse_from_indices_and_values idx vals m = Ok s /\ sshape s = nt :: m :: rb /\ swf s = true /\
+    forall t k b, t < nt -> k < m -> valid b rb ->
+      tat (sdense s) (t :: k :: b) = zsum nc (fun a => if idx_at idx (a :: t :: b) =? k then tat vals (a :: t :: b) else 0%Z).
+Proof. exact make_sparse_correct. Qed.
+
+Theorem C20_broadcast_shapes_comm : forall a b, broadcast_shapes a b = broadcast_shapes b a.
+Proof. exact broadcast_shapes_comm. Qed.
 
 (* ------------------------------------------------------------------------------------------------------------ *)
 (* linear_operator/utils/qr.py, pinverse.py — the transcription ModelQR.v instantiated on an ARBITRARY real field F
